@@ -1,8 +1,11 @@
 """C18 -- graph construction binds edges by vertex id and rejects ill-typed edges."""
 import json
+import os
 
 import vlib
 import check
+
+CORPUS = os.path.join(vlib.VERIF, 'corpus', 'c18.json')
 
 THEOREMS = ['C18_binding', 'C18_binding_order_independent', 'C18_duplicates_last_wins', 'C18_unknown_id', 'C18_iff',
             'C18_inconsistent_rejected', 'C18_consistent_sound_odometry', 'C18_consistent_sound_landmark',
@@ -27,6 +30,9 @@ def run(rep, tier, seed):
     rep.obligation('make lib/ValidCases.vo (case space of the correspondence)', mk, log[-1500:])
     empty = {'evaluations': 0, 'agree': 0, 'disagreements': [], 'coq_errors': [{'out': 'ValidCases.vo not built'}], 'dist': {}, 'oracle_violations': [],
              'accepted_library_edges_run': 0, 'files': 0, 'exhaustive': False, 'samples': []}
+    ncorp, corp_bad = corr_eqvalid.c18_corpus(CORPUS)
+    rep.obligation('corpus of minimised past failures (%d constructions, corpus/c18.json) satisfies the specification' % ncorp, not corp_bad,
+                   json.dumps(corp_bad[:2], default=str)[:1500])
     corr = corr_eqvalid.c18_run(tier, seed) if mk else empty
     bind = corr_eqvalid.c18_binding_run(tier, seed) if mk else {'graphs': 0, 'agree': 0, 'disagreements': [], 'coq_errors': [], 'oracle_violations': [], 'accepted': 0, 'duplicate_id_graphs': 0}
     corr_ok = not corr['disagreements'] and not corr['coq_errors'] and corr['evaluations'] > 0 and corr['agree'] == corr['evaluations']
@@ -36,7 +42,8 @@ def run(rep, tier, seed):
                    corr_ok, json.dumps((corr['disagreements'] + corr['coq_errors'])[:2], default=str)[:1500])
     rep.obligation('correspondence 4.5 (binding stream): %d random graphs with permuted vertex lists, duplicate ids (%d graphs) and several edges: same bindings'
                    % (bind['graphs'], bind['duplicate_id_graphs']), bind_ok, json.dumps((bind['disagreements'] + bind['coq_errors'])[:2], default=str)[:1500])
-    orv = corr['oracle_violations'] + bind['oracle_violations']
+    orv = corp_bad + corr['oracle_violations'] + bind['oracle_violations']
+    rep.cov['corpus_cases'] = ncorp
     rep.obligation('direct oracle: declarative specification on the implementation (unknown id -> KeyError; inconsistent -> AssertionError; consistent -> accepted, '
                    'bound to the last vertex with the named id, calc_chi2() and optimize(max_iter=1) run) on %d constructions' % (corr['evaluations'] + bind['graphs']),
                    not orv and corr['evaluations'] > 0, json.dumps(orv[:2], default=str)[:1500])
@@ -52,7 +59,7 @@ def run(rep, tier, seed):
     rep.cov['rule'] = ('case = (edge class in {EdgeOdometry, EdgeLandmark, custom K0 = tests/edge_types.py BaseEdgeForTests, custom K1 with its own test}) x (vertex count 1..3) '
                        'x (pose class of each endpoint, 4 each) x (estimate type: 4 pose classes, ndarray(2,), ndarray(3,), float, None) x (offset type, landmark only: 4 pose classes, None, ndarray(3,)) '
                        'x (information.shape (r,c), r,c in 1..7) x (all ids known | slot j names an unknown id); vertex list in reverse order of the slots. '
-                       'thorough: the complete cross product (1 102 752 constructions); quick: the accepted region, its one-feature neighbours, the full type cross product with '
+                       'thorough: the complete cross product (count measured: coverage.correspondence.constructions); quick: the accepted region, its one-feature neighbours, the full type cross product with '
                        'the square shapes 2,3,6, and a seeded random sample. distinct by construction; non-trivial = all ids known (the validity predicates are reached)')
     rep.cov['samples'] = corr['samples'] or [{'note': 'no case ran'}]
     if orv:
